@@ -167,8 +167,16 @@ func TestVerifC19(t *testing.T) {
 		be.last = nil
 		be.mu.Unlock()
 		var sb strings.Builder
-		fmt.Fprintf(&sb, "%s %s HTTP/1.1\r\nHost: verif.example\r\nConnection: close\r\n", method, rawPath)
+		// a client may also name headers in Connection to have a proxy strip them as hop-by-hop
+		connHdr := []string{"close", "close", "close, X-Connecting-Ip", "close, X-Connecting-IP, X-Request-Id", "X-Connecting-Ip, close"}[rng.Intn(5)]
+		if connHdr != "close" {
+			hdrs = append(hdrs, "Connection:"+connHdr)
+		}
+		fmt.Fprintf(&sb, "%s %s HTTP/1.1\r\nHost: verif.example\r\nConnection: %s\r\n", method, rawPath, connHdr)
 		for _, hn := range hdrs {
+			if strings.HasPrefix(hn, "Connection:") {
+				continue
+			}
 			val := fmt.Sprintf("6.6.6.%d", 1+rng.Intn(200))
 			if hn == "Forwarded" {
 				val = "for=" + val
